@@ -110,6 +110,7 @@ pub struct Plan {
     pub ldb_small_buffer: bool,
     pub ldb_reopens: u8,
     pub ldb_compact: bool,
+    pub ldb_history: bool,
 }
 
 pub fn blk_name(number: u64, pad: u8) -> String {
@@ -222,6 +223,45 @@ impl Plan {
             }
             o
         };
+        if self.ldb_history {
+            // what a node's database went through before it reached its final content: a record is first written when
+            // only the header is known (VALID_TREE, no file fields), or with the position of an earlier download, and
+            // overwritten later; records of headers that turned out invalid and foreign keys are written and deleted
+            let mut db = rusty_leveldb::DB::open(path, mk_opts()).map_err(|e| format!("leveldb open: {}", e))?;
+            let mut deleted: Vec<Vec<u8>> = Vec::new();
+            for (i, r) in self.recs.iter().enumerate() {
+                let sel = (r.hash[0] as usize + i) % 4;
+                let mut old = r.clone();
+                if sel == 0 {
+                    old.status = VALID_TREE;
+                    old.ntx = 0;
+                } else if sel == 1 {
+                    old.file = r.file.wrapping_add(1);
+                    old.data_pos = r.data_pos / 2 + 8;
+                    old.undo_pos = 0;
+                } else if sel == 2 {
+                    // a data-bearing record under a key that is deleted again: must never be delivered
+                    old.hash[31] ^= 0x5a;
+                    old.hash[0] ^= 0xa5;
+                    deleted.push(old.key());
+                } else {
+                    continue;
+                }
+                db.put(&old.key(), &old.value()).map_err(|e| format!("leveldb put: {}", e))?;
+            }
+            for k in [vec![b'f', 9, 0, 0, 0], vec![b'R'], vec![b'a'], vec![b'c', 1]] {
+                if !self.raw_kv.iter().any(|(rk, _)| *rk == k) {
+                    db.put(&k, &[1, 2, 3]).map_err(|e| format!("leveldb put: {}", e))?;
+                    deleted.push(k);
+                }
+            }
+            db.flush().map_err(|e| format!("leveldb flush: {}", e))?;
+            for k in &deleted {
+                db.delete(k).map_err(|e| format!("leveldb delete: {}", e))?;
+            }
+            db.flush().map_err(|e| format!("leveldb flush: {}", e))?;
+            db.close().map_err(|e| format!("leveldb close: {}", e))?;
+        }
         let nchunks = (self.ldb_reopens as usize + 1).min(kvs.len().max(1));
         let per = ((kvs.len() + nchunks - 1) / nchunks).max(1);
         let chunks: Vec<&[(Vec<u8>, Vec<u8>)]> = if kvs.is_empty() { vec![&kvs[..]] } else { kvs.chunks(per).collect() };
